@@ -5,6 +5,8 @@ EXTENDS Naturals, Integers, Sequences, FiniteSets, TLC, Json, IOUtils
 S  == INSTANCE Settings
 SC == INSTANCE Scripts
 BF == INSTANCE Bcrypt
+Y == INSTANCE Yescrypt
+GSL == INSTANCE Gensalt
 T == ndJsonDeserialize(IOEnv.XCV_TRACE)
 VARIABLES l, viol, cnt
 V(p, n) == [l |-> l, p |-> p, n |-> n]
@@ -30,7 +32,8 @@ Judge(ev) ==
 FlagsOf(n) == IF n = "bfkey1" THEN 1 ELSE IF n = "bfkey2" THEN 2 ELSE 4
 JudgeAux(ev) ==
   IF "aux" \notin DOMAIN ev THEN {}
-  ELSE UNION {LET x == ev.aux[i]
+  ELSE UNION {IF ev.aux[i].n \notin {"bfkey1", "bfkey2", "bfkey4"} THEN {} ELSE
+              LET x == ev.aux[i]
                   key == SubSeq(x.a, 1, Len(x.a) - 1)
                   want == BF!BFSetKey(key, FlagsOf(x.n)) IN
               IF BF!Words(x.b) = want.expanded /\ BF!Words(x.c) = want.initial THEN {} ELSE {V("C02", "BfSetKey")}
@@ -42,10 +45,25 @@ JudgeBfUse(ev) ==
     THEN LET want == IF o.m = "bcrypt_x" THEN "bfkey1" ELSE IF o.m = "bcrypt_a" THEN "bfkey2" ELSE "bfkey4" IN
          IF Len(ev.aux) >= 1 /\ ev.aux[1].n = want /\ ev.aux[1].a = ev.pc \o <<0>> THEN {} ELSE {V("C02", "BfKeyOfPhrase")}
   ELSE {}
+\* yescrypt family: the parameters the KDF ran with are the ones the setting encodes, the salt is the decoded
+\* salt field, and the smix invocations are the schedule the definition prescribes for them
+JudgeY(ev) ==
+  LET o == S!Outcome(Enabled, ev.s, ev.pl) IN
+  IF "aux" \notin DOMAIN ev \/ o.m \notin {"yescrypt", "gost_yescrypt", "scrypt"} \/ ~Success(ev) THEN {}
+  ELSE LET d == IF o.m = "scrypt" THEN Y!Decode7(ev.s) ELSE Y!DecodeY(ev.s, IF o.m = "yescrypt" THEN 3 ELSE 4)
+           k == Y!Kdf(ev.aux) IN
+       IF ~d.ok THEN {}                                   \* (numerals of three or more characters: not evaluated)
+       ELSE IF ~k.ok THEN {V("C02", "YescryptNoKdf")}
+       ELSE (IF <<k.flags, k.N, k.r, k.p, k.t, k.g>> = <<d.flags, d.N, d.r, d.p, d.t, d.g>> THEN {} ELSE {V("C02", "YescryptParams")})
+            \cup (IF Y!Observed(ev.aux) = Y!Schedule(d) THEN {} ELSE {V("C02", "YescryptSchedule")})
+            \cup (LET lastd == S!LastIndexOf(ev.s, 36, d.saltstart)
+                       saltstr == SubSeq(ev.s, d.saltstart, IF lastd = 0 THEN Len(ev.s) ELSE lastd - 1) IN
+                  IF o.m = "scrypt" THEN (IF k.salt = saltstr THEN {} ELSE {V("C02", "YescryptSalt")})
+                  ELSE (IF GSL!Enc64LE(k.salt) = saltstr THEN {} ELSE {V("C02", "YescryptSalt")}))
 Init == l = 1 /\ viol = {} /\ cnt = 0
 Next == /\ l <= Len(T) /\ l' = l + 1
         /\ IF IsHashEv(T[l].e) /\ T[l].pnull = 0 /\ T[l].snull = 0
-             THEN viol' = viol \cup Judge(T[l]) \cup JudgeAux(T[l]) \cup JudgeBfUse(T[l]) /\ cnt' = cnt + 1
+             THEN viol' = viol \cup Judge(T[l]) \cup JudgeAux(T[l]) \cup JudgeBfUse(T[l]) \cup JudgeY(T[l]) /\ cnt' = cnt + 1
              ELSE UNCHANGED <<viol, cnt>>
 Spec == Init /\ [][Next]_<<l, viol, cnt>>
 Finish == l <= Len(T) \/ JsonSerialize(IOEnv.XCV_VERDICT, [consumed |-> l - 1, lines |-> Len(T), viol |-> viol, div |-> {}, cnt |-> [calls |-> cnt]])
